@@ -63,6 +63,7 @@ import (
 	"github.com/crossplane/crossplane/internal/verifenv"
 	"github.com/crossplane/crossplane/internal/verifkit"
 	"github.com/crossplane/crossplane/internal/verifsim"
+	"github.com/crossplane/crossplane/internal/xpkg"
 )
 
 const (
@@ -71,6 +72,7 @@ const (
 	compName = "comp"
 	revName  = "provider-x-0123456789ab"
 	revImage = "xpkg.upbound.io/acme/provider-x:v1.0.0"
+	revOwnedCRD = "widgets.acme.example.org"
 
 	finClaim    = "finalizer.apiextensions.crossplane.io"
 	finXR       = "composite.apiextensions.crossplane.io"
@@ -97,6 +99,7 @@ const (
 	actorAPI     = "apiserver"
 	actorSetup   = "setup"
 	actorPkgOther = "other-revision-controller"
+	actorPkgMgr   = "package-manager"
 )
 
 var (
@@ -303,6 +306,7 @@ type world struct {
 	effectiveStops int
 	faultsHit      int
 	lastRun        *verifsim.Run
+	inactiveInLockDeletes int
 	hashCache      map[uintptr]cachedHash
 }
 
@@ -460,6 +464,20 @@ func (w *world) installRevision() {
 	pr.Spec.DesiredState = pkgv1.PackageRevisionActive
 	pr.Spec.Revision = 1
 	w.sim.MustCreate(actorSetup, pr)
+	// An installed revision controls the objects of its package and lists them in
+	// status.objectRefs (with that list an Inactive revision is deactivated
+	// without fetching its image again).
+	owned := verifsim.U(verifsim.Obj{"apiVersion": "apiextensions.k8s.io/v1", "kind": "CustomResourceDefinition",
+		"metadata": map[string]any{"name": revOwnedCRD, "ownerReferences": []any{map[string]any{
+			"apiVersion": "pkg.crossplane.io/v1", "kind": "ProviderRevision", "name": revName, "uid": string(pr.GetUID()), "controller": true, "blockOwnerDeletion": true}}},
+		"spec": map[string]any{"group": "acme.example.org", "scope": "Cluster", "names": map[string]any{"kind": "Widget", "plural": "widgets"},
+			"versions": []any{map[string]any{"name": "v1", "served": true, "storage": true, "schema": map[string]any{"openAPIV3Schema": map[string]any{"type": "object"}}}}}})
+	w.sim.MustCreate(actorSetup, owned)
+	pr.Status.ObjectRefs = []xpv1.TypedReference{{APIVersion: "apiextensions.k8s.io/v1", Kind: "CustomResourceDefinition", Name: revOwnedCRD}}
+	pr.SetConditions(pkgv1.Healthy(), pkgv1.Active())
+	if err := c.Status().Update(ctx, pr); err != nil {
+		panic(fmt.Sprintf("c08: revision status: %v", err))
+	}
 	dm := revision.NewPackageDependencyManager(c, dag.NewMapDag, pkgv1.ProviderGroupVersionKind)
 	if _, _, _, err := dm.Resolve(ctx, &pkgmetav1.Provider{}, pr); err != nil {
 		panic(fmt.Sprintf("c08: Resolve for the revision under test: %v", err))
@@ -826,6 +844,9 @@ func (w *world) do(a act) string {
 		if !w.u.Revision {
 			return "disabled"
 		}
+		if o := w.sim.Get(revKey); o != nil && !verifsim.Terminating(o) && verifsim.Nested(o, "spec", "desiredState") == string(pkgv1.PackageRevisionInactive) && w.lockHas(revName) {
+			w.inactiveInLockDeletes++ // not restored by DFS snapshots (the DFS universe has no revision)
+		}
 		return w.userDelete(revKey, pkgv1.ProviderRevisionGroupVersionKind, a.FG)
 	case "del-composed": // includes "user deletes the Usage" (tmpl usage) and "the using resource" (r1)
 		if a.I >= w.u.Claims {
@@ -877,15 +898,21 @@ func (w *world) do(a act) string {
 		_, err := r.Reconcile(ctx, req("", xrdName))
 		return w.outcome(run, a, err)
 	case "rec-rev":
-		// Only the deletion branch is driven (the install path needs a registry; C15/C16 own it).
-		if o := w.sim.Get(revKey); !w.u.Revision || o == nil || !verifsim.Terminating(o) {
+		// Driven: the deletion branch, and the deactivation path of an Inactive revision (which, with
+		// status.objectRefs present, returns before any image is fetched). The install path of an Active
+		// revision needs a registry; C15/C16 own it.
+		if o := w.sim.Get(revKey); !w.u.Revision || o == nil || !(verifsim.Terminating(o) || verifsim.Nested(o, "spec", "desiredState") == string(pkgv1.PackageRevisionInactive)) {
 			return "disabled"
 		}
 		run := w.newRun(actorRev, a)
 		c := run.Client()
+		// wired as SetupProviderRevision does, minus the image backend and the runtime hooks
 		r := revision.NewReconciler(&fakeMgr{c: c, scheme: w.sim.Scheme},
 			revision.WithNewPackageRevisionFn(func() pkgv1.PackageRevision { return &pkgv1.ProviderRevision{} }),
 			revision.WithDependencyManager(revision.NewPackageDependencyManager(c, dag.NewMapDag, pkgv1.ProviderGroupVersionKind)),
+			revision.WithEstablisher(revision.NewAPIEstablisher(c, "crossplane-system", 1)),
+			revision.WithConfigStore(xpkg.NewImageConfigStore(c, "crossplane-system")),
+			revision.WithNamespace("crossplane-system"),
 			revision.WithRecorder(w.env.Recorder))
 		_, err := r.Reconcile(ctx, req("", revName))
 		return w.outcome(run, a, err)
@@ -974,6 +1001,21 @@ func (w *world) do(a act) string {
 		}
 		w.eng.running = map[string]bool{}
 		w.eng.calls = append(w.eng.calls, engineCall{Op: "ProcessRestart", Seq: w.sim.LogLen()})
+		return "ok"
+	case "deactivate-rev": // the package manager (or a user) flips spec.desiredState to Inactive: a spec edit only
+		o := w.sim.Get(revKey)
+		if !w.u.Revision || o == nil || verifsim.Terminating(o) || verifsim.Nested(o, "spec", "desiredState") == string(pkgv1.PackageRevisionInactive) {
+			return "disabled"
+		}
+		pr := &pkgv1.ProviderRevision{}
+		c := w.sim.Client(actorPkgMgr)
+		if err := c.Get(ctx, types.NamespacedName{Name: revName}, pr); err != nil {
+			return "refused: " + err.Error()
+		}
+		pr.Spec.DesiredState = pkgv1.PackageRevisionInactive
+		if err := c.Update(ctx, pr); err != nil {
+			return "refused: " + err.Error()
+		}
 		return "ok"
 	case "lock-churn": // another revision controller enters its package in the Lock
 		if !w.u.Revision {
